@@ -2,7 +2,7 @@
 use super::{PropDef, Tier};
 use crate::ctx::{Body, CtxSpec, FnSpec};
 use crate::prng::Rng;
-use crate::run::{eval_case_from_src, Case};
+use crate::run::Case;
 use crate::wire::expr_to_sx;
 use std::collections::HashMap;
 
@@ -194,14 +194,15 @@ thread_local! {
     static EXPECT: std::cell::RefCell<HashMap<String, String>> = std::cell::RefCell::new(HashMap::new());
 }
 
+/// source-level cases: both sides compile the text themselves (the model with its own parser and
+/// its own macro expander), so a change to the expansion is as visible as a change to the fold
 fn push_case(out: &mut Vec<Case>, spec: &CtxSpec, src: String, want: Option<String>, tags: Vec<&'static str>) {
-    if let Some(mut c) = eval_case_from_src(spec, &src) {
-        c.tags = tags;
-        if let Some(w) = want {
-            EXPECT.with(|e| e.borrow_mut().insert(c.key(), w));
-        }
-        out.push(c);
+    let mut c = crate::run::run_case(spec, &src);
+    c.tags = tags;
+    if let Some(w) = want {
+        EXPECT.with(|e| e.borrow_mut().insert(c.key(), w));
     }
+    out.push(c);
 }
 
 fn fmt_res(outcome: String, log: &[String]) -> String {
@@ -324,6 +325,41 @@ pub fn generate(tier: Tier, rng: &mut Rng) -> Vec<Case> {
             None => format!("(ok (list{}))", parts.iter().map(|p| format!(" {p}")).collect::<String>()),
         };
         push_case(&mut out, &spec, src, Some(fmt_res(outcome, &log)), vec!["nested"]);
+    }
+    // chained macros: the range of one macro is the result of another (same or different
+    // variable name), with logging and failing bodies — the first macro runs to completion before
+    // the second visits anything; the model decides
+    let preds = ["t(x) > 0", "x > 0", "6 / x > 1", "t(x) != 1 && 6 / x > 0", "true", "false"];
+    let funs = ["t(x) * 2", "x + 1", "6 / x", "[t(x)]", "t(x) == 1"];
+    let n_chain = if tier == Tier::Quick { 1 } else { 6 };
+    for _ in 0..n_chain {
+        for xs in [vec![], vec![1i64], vec![3, 4, 5, 7], vec![1, 3, 0, 5], vec![0, 1], vec![2, 0, 2], vec![-1, 0, 1, 2]] {
+            let l = list_src(&xs);
+            for p in preds {
+                for f in funs {
+                    for (v1, v2) in [("x", "x"), ("x", "y")] {
+                        let f2 = f.replace('x', v2);
+                        let p2 = p.replace('x', v2);
+                        let p1 = p.replace('x', v1);
+                        let f1 = f.replace('x', v1);
+                        for src in [
+                            format!("{l}.filter({v1}, {p1}).map({v2}, {f2})"),
+                            format!("{l}.map({v1}, {f1}).filter({v2}, {v2} == {v2})"),
+                            format!("{l}.filter({v1}, {p1}).all({v2}, {p2})"),
+                            format!("{l}.filter({v1}, {p1}).exists({v2}, {p2})"),
+                            format!("{l}.filter({v1}, {p1}).exists_one({v2}, {p2})"),
+                            format!("{l}.map({v1}, {p1}, {f1}).map({v2}, [{v2}])"),
+                            format!("{l}.filter({v1}, {p1}).filter({v2}, {p2}).map({v1}, {f1})"),
+                            format!("{l}.map({v1}, {l}.filter({v2}, {p2})).filter({v2}, size({v2}) > 0)"),
+                        ] {
+                            if rng.chance(1, 2) || tier == Tier::Thorough {
+                                push_case(&mut out, &spec, src, None, vec!["chained"]);
+                            }
+                        }
+                    }
+                }
+            }
+        }
     }
     // shapes of the expansion
     for (f, tgt, args) in [
